@@ -154,6 +154,14 @@ int main(int argc, char **argv) {
       iwkv_next_level = -1;
       printf("put %s", rcname(rc)); if (ph) ph_report(); printf("\n");
       free(k); free(v);
+    } else if (!strcmp(op, "putbig") && n == 5) { // putbig <db> <key> <comp> <size>: value of <size> zero bytes (too long for a hex line)
+      IWDB db = dbs[atoi(w[1])];
+      size_t kl, vl = strtoull(w[4], 0, 10); uint8_t *k = hx_parse(w[2], &kl);
+      uint8_t *v = vl <= ((size_t) 1 << 30) ? calloc(vl ? vl : 1, 1) : 0;
+      struct iwkv_val key = { .data = k, .size = kl, .compound = strtoll(w[3], 0, 10) }, val = { .data = v, .size = vl };
+      iwrc rc = db && v ? iwkv_put(db, &key, &val, 0) : IW_ERROR_INVALID_ARGS;
+      printf("put %s\n", rcname(rc));
+      free(k); free(v);
     } else if (!strcmp(op, "get") && n == 4) {
       IWDB db = dbs[atoi(w[1])];
       size_t kl; uint8_t *k = hx_parse(w[2], &kl);
